@@ -40,7 +40,7 @@ def main():
         return 2
     F = Facts(facts_path)
     if args.dump:
-        b = F.bodies.get(args.dump) or F.real_body(args.dump)
+        b = F.real_body(args.dump) or F.bodies.get(args.dump)
         print(dump_body(b) if b else "no such body")
         return 0
 
